@@ -123,6 +123,16 @@ def eval_level_s(prop, batches, known):
                         else:
                             res['specfail'].append({'batch': b['dir'], 'id': op.get('id'), 'tag': tag, 'type': op.get('type'),
                                                     'triggers': cr.get('triggers') or []})
+                # C03: the acceptance test of the real framework on the result (driver: `conformance`): the object renders as a
+                # tftypes value of exactly the schema's type, fully known, and the schema's own type takes it back
+                if prop == 'C03' and isinstance(im.get('obs'), dict):
+                    res['conformanceEvaluated'] = res.get('conformanceEvaluated', 0) + 1
+                    ob = im['obs']
+                    bad = [k for k in ('conformPanic', 'toTerraformValue', 'valueFromTerraform') if k in ob]
+                    bad += [k for k in ('typeEqual', 'fullyKnown') if ob.get(k) is False]
+                    if bad and not (cr.get('triggers') and any(t in known for t in cr['triggers'])):
+                        res['specfail'].append({'batch': b['dir'], 'id': op.get('id'), 'tag': tag, 'type': op.get('type'), 'triggers': [],
+                                                'conformance': {k: ob.get(k) for k in bad}})
                 if len(res['samples']) < 3 and nontrivial(op, im):
                     res['samples'].append({'op': trunc(op), 'impl': trunc(im)})
     return res
